@@ -531,9 +531,10 @@ def r7_convert(report, repo):
                rule, 'data', 'PASSTHROUGH_TYPES', DA,
                'floats are not passed through unconverted (%s)' % names)
   g = lib.cfg(f)
+  af = lib.local_from(f, lib.calls(name='float'), 'as_float')
   strs = [x for x in g.nodes if x.kind == 'stmt' and isinstance(
       x.ast, ast.Return) and call_name(x.ast.value) == 'str' and
-          dotted(x.ast.value.args[0]) == 'as_float']
+          dotted(x.ast.value.args[0]) == af]
   ok = len(strs) == 1 and g.dominated_by_edge(
       strs[0], lambda s, l, d: s.kind == 'test' and l == 'T' and
       dotted(s.ast) == 'json_safe') and any(
